@@ -9,4 +9,5 @@ let table : (string * (z list -> z list)) list = [
   ("c19", run_c19);
   ("px", run_px);
   ("c18", run_c18);
+  ("c17", run_c17);
 ]
